@@ -5,6 +5,8 @@ CONSTANTS
   Bondeds = {"0", "3", "5", "10000001000000000000000000"}
   Coeffs = {"50000000000000000000", "100000000000000000000"}
   MaxDists = {"-1", "0", "1", "2", "3", "1000000000000000000000000000000000000000000"}
+  MaxAbs = {"0", "1"}
+  MaxDenoms = {"aISLM", "aislm"}
   ExtDeltas = {"1", "-1"}
   InitSupply = "20000000000000000000000000000"
   MaxLen = 6
